@@ -148,3 +148,23 @@ package keeper
 //@   ensures[C09.ssai.err] (err != nil) <==> (info.AssetBasicInfo.Decimals > g("x/assets/types.MaxDecimal") || val(info.StakingTotalAmount) < 0 ||
 //@        old(assetRaw(ctx, assetIDStr(info.AssetBasicInfo.LayerZeroChainID, info.AssetBasicInfo.Address))) != nil)
 
+
+// ---------------------------------------------------------------------------------------------
+// C04 (what a slash records as taken from an operator's pool is what the pool loses): whatever a visitor does to a
+// pool row it is handed is written back before the iteration moves on - after every visit with isUpdate the stored
+// bytes of that row are the encoding of the row as the visitor left it (also when the visitor emptied it), and a row
+// is skipped only when a filter is given.
+//@ func (Keeper).IterateAssetsForOperator#opFunc
+//@   flag assumed
+//@   modifies *state
+//@   emits mkEv(62, "visit", 0)
+
+//@ func (Keeper).IterateAssetsForOperator
+//@   modifies store(ctx, "assets"), trace, heap["x/assets/types.OperatorAssetInfo"]
+//@   before[C04.iafo.row] #opFunc requires *arg_state == unm["x/assets/types.OperatorAssetInfo"](res_Value_0)
+//@   ensures[C04.iafo.readonly] !isUpdate ==> state(ctx) == old(state(ctx))
+//@ loop #1
+//@   invariant !isUpdate ==> state(ctx) == old(state(ctx))
+//@   invariant traceN() >= old(traceN())
+//@   step[C04.iafo.persist] (traceN() == old(traceN()) + 1 && (isUpdate ==> get(ctx, "assets", cat(g("x/assets/types.KeyPrefixOperatorAssetInfos"), res_Key_0)) == res_MustMarshal_0)) ||
+//@        (assetsFilter != nil && traceN() == old(traceN()) && state(ctx) == old(state(ctx)))
